@@ -49,3 +49,11 @@ Theorem c06_kdb_parse_db_total :
   forall ng ne payload,
   match parse_db ng ne payload with Panic _ => False | OutOfFuel => False | _ => True end.
 Proof. exact parse_db_never_panics. Qed.
+
+(* the XML object mapping (model xml/XmlParse.v): for EVERY event list and key stream the parser
+   returns a content or an error - never a panic, never out of fuel *)
+From KP Require Import XmlTypes XmlParse XmlTotal.
+Theorem c06_xml_parse_total :
+  forall (gunzip : bytes -> option bytes) (evs : list ev) (ks : bytes),
+  (exists c, parse_events gunzip evs ks = Ok c) \/ (exists e, parse_events gunzip evs ks = Err e).
+Proof. exact parse_events_total. Qed.
